@@ -5,12 +5,10 @@ from props import gen_props
 
 def run(ctx):
     from props import gen_unbounded
-    gen_unbounded.run_reroute(ctx, ('reroute_multiclient_out_events',))   # unbounded part: out-events to the claim holder
-    gen_unbounded.run_claim_release(ctx)                                  # unbounded part: InitializePort<Port>()
-    gen_unbounded.run_multiclient_cfg(ctx)   # the claim / release events are the configured ones, whatever they are called
-    ctx.interp.model_strings_break_free = True
-    only = os.environ.get('PYVC_SHAPES')
-    gen_props.run_property(ctx, 'C04', only.split(',') if only else None)
+    # the composition on the shape corpus, then the unbounded function contracts (DESIGN.md 8.6)
+    gen_unbounded.run_with_composition(ctx, 'C04', [('mc-out', gen_unbounded.run_reroute, ('reroute_multiclient_out_events',)),
+                                                      ('claim-release', gen_unbounded.run_claim_release),
+                                                      ('mc-cfg', gen_unbounded.run_multiclient_cfg)])
 
 
 def make_replay(ctx, o):
